@@ -364,6 +364,24 @@ def error_discipline(ctx, rule, bodies):
                 if pcs and all(ctx._sat(d, r"^is_some\(.*Iterator(>)?::next\(.*\)\)=False$") for d in pcs):
                     ctx.ob(rule + ".drop", b.key, "drop " + ty[:80], True, "exhausted iterator (dropped on the edge where next() returned None)")
                     continue
+            if key is None and ty.startswith("alloc::vec::Vec<"):
+                # a vector known to be empty where it is dropped carries no error
+                place = ctx.expr(b, t["p"])
+                pcs = ctx.pc_strs(b, blk)
+
+                def moved_on(d):
+                    # the value was handed to a call on the path described by d (the drop at the join is
+                    # then guarded by a drop flag and does nothing)
+                    for b2, t2 in b.calls():
+                        if b2 == blk or blk not in b.reachable(b2, False):
+                            continue
+                        if any(a_["k"] == "move" and not a_["p"]["proj"] and ctx.expr(b, a_) == place for a_ in t2["args"]):
+                            if any(set(d2) <= set(d) for d2 in (ctx.pc_strs(b, b2) or [set()])):
+                                return True
+                    return False
+                if pcs and all(("len(%s)=0" % place) in d or moved_on(d) for d in pcs) and any(("len(%s)=0" % place) in d for d in pcs):
+                    ctx.ob(rule + ".drop", b.key, "drop " + ty[:80], True, "the vector is empty on the paths where it is still owned (len = 0); on the others it was moved into a call")
+                    continue
             if key is None and taken_before(ctx, b, blk, t):
                 ctx.ob(rule + ".drop", b.key, "drop " + ty[:80], True, "the place was emptied by mem::take / Option::take and is only now overwritten")
                 continue
